@@ -121,6 +121,23 @@ func genC04(c *Ctx) *Plan {
 	p.Ops = kept
 	p.P["end"] = end + dur + int64(10*time.Second)
 	p.YieldOff = genYieldOff(r)
+	// node names of varying length: message sizes (and with them block alignment under the
+	// padded encryption format, compression outcomes, packet fill) depend on them
+	if r.chance(0.5) {
+		for i := 0; i < n; i++ {
+			b := []byte(fmt.Sprintf("n%d", i))
+			for k := r.intn(25); k > 0; k-- {
+				b = append(b, byte('a'+r.intn(26)))
+			}
+			p.Names = append(p.Names, string(b))
+		}
+		if r.chance(0.5) {
+			p.Cfg.ProtocolVersion = 1
+			if p.Cfg.Encrypt == 0 {
+				p.Cfg.Encrypt = 16
+			}
+		}
+	}
 	return p
 }
 
